@@ -104,6 +104,15 @@ def thorough(ck):
     clear_caches()
     ck.extra["self_validation"] = {k: (v if k.endswith(("missed", "alarm", "skipped", "declined")) else len(v)) for k, v in res.items()}
     ck.extra["self_validation"]["seeded_reported_detail"] = res["seeded_reported"]
+    from .pinned import PINNED_DIGEST
+    on_pinned = ck.prog.digest == PINNED_DIGEST
+    ck.extra["self_validation"]["tree_is_the_confirmed_one"] = on_pinned
+    if not on_pinned:
+        # the corpora were confirmed (demonstration fails / suite unchanged) against another tree: on this one a patch that still applies need not
+        # mean what it meant there, so the outcome is reported in the evidence but does not decide the exit code
+        ck.note("self-validation ran on a tree that differs from the one the corpora were confirmed on: %d seeded reported, %d missed, %d benign silent, %d benign alarms (informational)"
+                % (len(res["seeded_reported"]), len(res["seeded_missed"]), len(res["benign_silent"]), len(res["benign_alarm"])))
+        return
     for name in res["seeded_missed"]:
         ck.unsure("SELF", None, "seeded break %s (confirmed to violate %s) is reported by this check" % (name, prop), None,
                   "the checker misses a change it is documented to catch: its verdict on this tree is not trusted")
